@@ -6,7 +6,6 @@ import (
 	"encoding/json"
 	"fmt"
 	"net/http"
-	"reflect"
 	"strings"
 	"sync"
 	"time"
@@ -150,8 +149,9 @@ func (w *webSocketClient) forwardWebSocketData(message []byte) error {
 		return nil
 	}
 	if wsMsg.Type == webSocketTypeComplete {
-		reflect.ValueOf(sub.interfaceChan).Close()
-		return nil
+		// Mark the subscription as finished and close its channel, exactly
+		// once even if the application unsubscribes concurrently.
+		return w.subscriptions.Unsubscribe(wsMsg.ID)
 	}
 
 	return sub.forwardDataFunc(sub.interfaceChan, wsMsg.Payload)
